@@ -302,6 +302,48 @@ Qed.
 Lemma dna_involutive : all_chars involutive "ACGTacgtNnRYKMSWBVDHrykmswbvdh" = true.
 Proof. vm_compute. reflexivity. Qed.
 
+(* no character of the table has "*" as its complement, so the reverse complement of a sequence is never the placeholder *)
+Lemma wcc_table_no_star : forallb (fun p => negb (String.eqb (snd p) "*")) T_WCC = true.
+Proof. vm_compute. reflexivity. Qed.
+
+Lemma wcc_not_star c w : wcc c = Some w -> w <> "*".
+Proof.
+  unfold wcc. destruct (find _ T_WCC) as [p|] eqn:F; [|discriminate].
+  apply find_some in F. destruct F as [F _].
+  pose proof (proj1 (forallb_forall _ _) wcc_table_no_star p F) as L. cbn in L.
+  destruct (String.eqb (snd p) "") eqn:E; [discriminate|]. intro H. injection H as <-.
+  intro S. rewrite S in L. discriminate.
+Qed.
+
+Lemma append_eq_single a b x : (a ++ b)%string = String x "" -> String.length b = 1%nat -> a = "" /\ b = String x "".
+Proof.
+  intros H L. assert (String.length (a ++ b) = 1%nat) as LL by (rewrite H; reflexivity).
+  rewrite length_append in LL. destruct a as [|y a]; [cbn in H; auto|]. cbn in LL. lia.
+Qed.
+
+Lemma comp_not_star : forall s r, comp s = Some r -> r = "*" -> s = "*" .
+Proof.
+  intros s r C E. subst r. destruct s as [|c s]; cbn [comp] in C; [discriminate|].
+  destruct (wcc c) as [w|] eqn:W; [|discriminate]. destruct (comp s) as [r'|] eqn:Cs; [|discriminate].
+  injection C as C. apply append_eq_single in C; [|exact (wcc_single _ _ W)]. destruct C as [_ C].
+  exfalso. exact (wcc_not_star _ _ W C).
+Qed.
+
+(* reverse complement twice gives the sequence back, on sequences over characters whose complement is involutive *)
+Theorem rc_involutive : forall s r, all_chars involutive s = true -> rc s = Ok r -> rc r = Ok s.
+Proof.
+  intros s r A. unfold rc. destruct (String.eqb s "*") eqn:E.
+  - intro H. injection H as <-. rewrite E. reflexivity.
+  - rewrite rc_acc_comp. destruct (comp s) as [r'|] eqn:C; [|discriminate]. intro H. injection H as <-.
+    rewrite append_nil_r. destruct (String.eqb r' "*") eqn:E2.
+    + apply String.eqb_eq in E2. apply (comp_not_star _ _ C) in E2. subst s. discriminate.
+    + rewrite rc_acc_comp, (comp_involutive _ _ A C), append_nil_r. reflexivity.
+Qed.
+
+Example rc_involutive_example : rc "ACCGTNryk" = Ok "mryNACGGT" /\ rc "mryNACGGT" = Ok "ACCGTNryk" /\ all_chars involutive "ACCGTNryk" = true.
+Proof. vm_compute. auto. Qed.
+
+
 (* the length of what is appended for a member: the oriented sequence without its first cut characters *)
 Lemma drop_length n s : String.length (drop n s) = (String.length s - n)%nat.
 Proof.
